@@ -300,7 +300,7 @@ func c17Page(rt *rapid.T) (files map[string]string, page string, markers []strin
 	}
 	long := "zz" + strings.Repeat("VeryLongIdentifier_", 16) // messages that embed a name can be long: shown whole or not at all
 	fault := rapid.SampledFrom([]string{"{{ zzMissing }}", "{{ 1 / 0 }}", "{{ name + 1 }}", "{{ name.nosuchfn() }}", "{{ {a: 1}.zz }}",
-		"{{ [1, 2]['1'] }}", "{{ {a: 1}[0] }}", "{{ [1, 2][name] }}", "{{ {a: 1}[nil] }}", "{{ [1, 2][1.5] }}", "{{ name[0] }}", "{{ 5 % 0 }}", "{{ [1].slice('a') }}", "{{ name.repeat(-1).at('x') }}",
+		"{{ [1, 2]['1'] }}", "{{ {a: 1}[0] }}", "{{ [1, 2][name] }}", "{{ {a: 1}[nil] }}", "{{ [1, 2][1.5] }}", "{{ name[0] }}", "{{ 5 % 0 }}", "{{ [1].slice('a') }}", "{{ name.repeat(-1).at('x') }}", "{{ [name, zzMissing].join('/') }}", "{{ [name].append(name, zzMissing) }}", "{{ true.then(1, zzMissing) }}", "{{ {a: name, b: zzMissing}.a }}",
 		"{{ " + long + " }}", "{{ {a: 1}." + long + " }}", "{{ name." + long + "() }}"}).Draw(rt, "fault")
 	shape := rapid.SampledFrom([]string{"ok", "ok-layout", "top", "in-loop", "in-layout", "in-component", "in-slot", "missing", "after-nested-render", "ok-nested-render",
 		"in-each-else", "in-for-else", "in-nested-else", "in-elseif", "in-header", "in-control", "in-insert-expression"}).Draw(rt, "shape")
